@@ -5,7 +5,7 @@
    (rule, reference clause) pairs the checker accepts on this run (no pair is assumed to be accepted). *)
 From Coq Require Import Lia Bool ZArith NArith.
 From PegtlV Require Import Base Decode Grammar Engine EngineFacts AtomFacts Mono Equiv EquivFacts EquivEval EquivHeads EquivTable EquivBisim
-  EquivHeads2 EquivTable2 EquivTableU EquivCong EquivAtoms EquivAtoms2 EquivShebang.
+  EquivHeads2 EquivTable2 EquivTableU EquivCong EquivAtoms EquivAtoms2 EquivShebang EquivGen.
 
 Section Check2.
 Variable G0 : grammar.
@@ -129,7 +129,43 @@ Definition m_list_must (r1 r2 : rid) : bool :=
       | _, _ => false end
   | _, _ => false end.
 
+(* sub-rules of the expansion side are matched modulo: identity, structural bisimilarity (teq2), a seq< R > wrapper *)
+Definition leafeq (k : nat) (r s : rid) : bool :=
+  (r =? s) || teq2 G0 k r s ||
+  match hd_of s with
+  | Some (HSeq, [x]) => nis s HSeq [x] && ((x =? r) || teq2 G0 k r x)
+  | _ => false end.
+Definition m_rep_gen (k : nat) (r1 r2 : rid) : bool :=
+  match hd_of r1, hd_of r2 with
+  | Some (HRep n, [r]), Some (_, ss) => nis r1 (HRep n) [r] && nis r2 HSeq ss && (length ss =? n) && forallb (leafeq k r) ss
+  | _, _ => false end.
+Definition m_opt_gen (k : nat) (r1 r2 : rid) : bool :=
+  match hd_of r1, hd_of r2 with
+  | Some (HPartial, [r]), Some (_, [x; su]) => nis r1 HPartial [r] && nis r2 HSor [x; su] && nis su HSuccess [] && leafeq k r x
+  | _, _ => false end.
+Definition rep_likeb (a : rid) (n : nat) (r : rid) : bool := nis a (HRep n) [r] || ((n =? 0) && nis a HSuccess []).
+Definition repopt_likeb (b : rid) (n : nat) (r : rid) : bool := nis b (HRepOpt n) [r] || ((n =? 0) && nis b HSuccess []).
+Definition m_rmm_gen (r1 r2 : rid) : bool :=
+  match hd_of r1, hd_of r2 with
+  | Some (HRepMinMax mn mx, [r]), Some (_, [a; b; na]) =>
+      nis r1 (HRepMinMax mn mx) [r] && nis r2 HSeq [a; b; na] && rep_likeb a mn r && repopt_likeb b (mx - mn) r && nis na HNotAt [r]
+  | _, _ => false end.
+
+Definition m_list_must_gen (k : nat) (r1 r2 : rid) : bool :=
+  match hd_of r1, hd_of r2 with
+  | Some (HSeq, [r; st1]), Some (_, [_; st2]) =>
+      match hd_of st1, hd_of st2 with
+      | Some (_, [sq]), Some (_, [im]) =>
+          match hd_of sq, hd_of im with
+          | Some (_, [s'; m]), Some (_, [s; _]) =>
+              nis r1 HSeq [r; st1] && nis st1 HStarPartial [sq] && nis sq HSeq [s'; m] && nis r2 HSeq [r; st2] && nis st2 HStarPartial [im] &&
+              nis im (HIfMust false) [s; m] && leafeq k s s'
+          | _, _ => false end
+      | _, _ => false end
+  | _, _ => false end.
+
 Definition table_equiv2 (k : nat) (r1 r2 : rid) : bool :=
+  m_list_must_gen k r1 r2 || m_rep_gen k r1 r2 || m_opt_gen k r1 r2 || m_rmm_gen r1 r2 ||
   table_equiv G0 k r1 r2 || m_rep r1 r2 || m_rep_opt r1 r2 || m_rmm r1 r2 || m_plus r1 r2 || m_opt r1 r2 || m_partial r1 r2 ||
   m_until1 r1 r2 || m_until_pack r1 r2 || m_strict r1 r2 || m_star_strict r1 r2 || m_list_tail r1 r2 || m_eolf r1 r2 ||
   m_everything r1 r2 || m_ranges r1 r2 || m_shebang r1 r2 || m_list_must r1 r2.
@@ -153,10 +189,51 @@ Proof.
   - apply andb_true_iff in H. destruct H as [H1 H2]. constructor; [nodes | apply IH; exact H2].
 Qed.
 
+Lemma leafeq_sound k r s : leafeq k r s = true -> uequiv G C r s.
+Proof.
+  unfold leafeq. intros H. apply orb_true_iff in H. destruct H as [H|H]; [apply orb_true_iff in H; destruct H as [H|H]|].
+  - apply Nat.eqb_eq in H. subst. apply (uequiv_refl G C HC HG).
+  - apply (leq_uequiv G C). eapply teq2_leq; eauto.
+  - destruct (hd_of s) as [[[] [|x [|? ?]]]|]; try discriminate. apply andb_true_iff in H. destruct H as [H1 H2].
+    assert (Ns : node G s HSeq [x]) by nodes.
+    apply (uequiv_sym G C). apply (uequiv_trans G C s x r); [apply (seq1_uequiv G C HC HG s x Ns)|].
+    apply orb_true_iff in H2. destruct H2 as [H2|H2].
+    + apply Nat.eqb_eq in H2. subst. apply (uequiv_refl G C HC HG).
+    + apply (uequiv_sym G C). apply (leq_uequiv G C). eapply teq2_leq; eauto.
+Qed.
+Lemma rep_likeb_sound a n r : rep_likeb a n r = true -> rep_like G a n r.
+Proof.
+  unfold rep_likeb. intros H. apply orb_true_iff in H. destruct H as [H|H]; [left; nodes|].
+  apply andb_true_iff in H. destruct H as [H1 H2]. apply Nat.eqb_eq in H1. right. split; [exact H1 | nodes].
+Qed.
+Lemma repopt_likeb_sound b n r : repopt_likeb b n r = true -> repopt_like G b n r.
+Proof.
+  unfold repopt_likeb. intros H. apply orb_true_iff in H. destruct H as [H|H]; [left; nodes|].
+  apply andb_true_iff in H. destruct H as [H1 H2]. apply Nat.eqb_eq in H1. right. split; [exact H1 | nodes].
+Qed.
+
 Theorem table_equiv2_sound k r1 r2 : table_equiv2 k r1 r2 = true -> obs_equiv G C r1 r2.
 Proof.
   unfold table_equiv2. intros H. remember (table_equiv G0 k r1 r2) as te eqn:Ete.
+  remember (m_rep_gen k r1 r2) as g1 eqn:Eg1. remember (m_opt_gen k r1 r2) as g2 eqn:Eg2. remember (m_rmm_gen r1 r2) as g3 eqn:Eg3.
+  remember (m_list_must_gen k r1 r2) as g4 eqn:Eg4.
   repeat (apply orb_true_iff in H; destruct H as [H|H]).
+  - subst g4. unfold m_list_must_gen in H. destruct (hd_of r1) as [[[] [|r [|st1 [|? ?]]]]|]; try discriminate.
+    destruct (hd_of r2) as [[h2 [|x [|st2 [|? ?]]]]|]; try discriminate.
+    destruct (hd_of st1) as [[h3 [|sq [|? ?]]]|]; try discriminate. destruct (hd_of st2) as [[h4 [|im [|? ?]]]|]; try discriminate.
+    destruct (hd_of sq) as [[h5 [|s' [|m [|? ?]]]]|]; try discriminate. destruct (hd_of im) as [[h6 [|s [|y [|? ?]]]]|]; try discriminate.
+    split_ands H.
+    apply uequiv_obs_equiv. apply (list_must_gen G C HC HG HW r1 st1 sq r2 st2 im r s s' m); try nodes. eapply leafeq_sound; eassumption.
+  - subst g1. unfold m_rep_gen in H. destruct (hd_of r1) as [[[] [|r [|? ?]]]|]; try discriminate.
+    destruct (hd_of r2) as [[h2 ss]|]; try discriminate. split_ands H. apply Nat.eqb_eq in H1. subst n.
+    apply uequiv_obs_equiv. apply (rep_seq_gen G C HC HG HW r1 r2 r ss); [nodes | nodes|].
+    apply Forall_forall. intros x Hx. apply (leafeq_sound k). exact (proj1 (forallb_forall _ _) H0 x Hx).
+  - subst g2. unfold m_opt_gen in H. destruct (hd_of r1) as [[[] [|r [|? ?]]]|]; try discriminate.
+    destruct (hd_of r2) as [[h2 [|x [|su [|? ?]]]]|]; try discriminate. split_ands H.
+    apply uequiv_obs_equiv. apply (opt_sor_gen G C HC HG r1 r2 x su r); [nodes | nodes | nodes | eapply leafeq_sound; eassumption].
+  - subst g3. unfold m_rmm_gen in H. destruct (hd_of r1) as [[[] [|r [|? ?]]]|]; try discriminate.
+    destruct (hd_of r2) as [[h2 [|a [|b [|na [|? ?]]]]]|]; try discriminate. split_ands H.
+    apply uequiv_obs_equiv. apply (rep_min_max_gen G C HC HG HW mn mx r1 r2 a b na r); [nodes | nodes | apply rep_likeb_sound; assumption | apply repopt_likeb_sound; assumption | nodes].
   - subst te. exact (table_equiv_sound G0 G C HC HG HW HE k r1 r2 H).
   - unfold m_rep in H. destruct (hd_of r1) as [[[] [|r [|? ?]]]|]; try discriminate. split_ands H.
     apply (rep_seq_table G C HC HG HW n r1 r2 r); nodes.
